@@ -697,6 +697,11 @@ func (S *Specs) parseFile(path string) error {
 				case "candidate":
 					c.Ord = len(cur.LoopCand) + 1
 					cur.LoopCand = append(cur.LoopCand, c)
+				case "transition":
+					// a two-state fact about one iteration: prev(e) is e at the loop head; checked at every back edge, never
+					// assumed ("once set, the flag stays set")
+					c.Ord = len(cur.LoopInv) + 1
+					cur.LoopInv = append(cur.LoopInv, c)
 				case "derived":
 					// a consequence of the invariants listed before it: proved once at the loop head (from those invariants,
 					// for the arbitrary iteration state) and then available like them; not re-proved around the loop
